@@ -123,7 +123,32 @@ TsToNs(v) ==    \* <<"ts", neg, mag, nsec>> -> target time_point<ns>: representa
 -----------------------------------------------------------------------------
 (* Typed load of one value into a target of type T (MessagePack data model)  *)
 
-RECURSIVE LoadLeaf(_, _, _), LoadElems(_, _, _, _, _)
+RECURSIVE LoadLeaf(_, _, _), LoadElems(_, _, _, _, _), LoadMapPairs(_, _, _, _, _, _)
+
+\* order of std::map keys: strings by bytes, integers by value
+KeyLess(a, b) ==
+  IF a[1] = "str" THEN
+       LET RECURSIVE Lt(_)
+           Lt(i) == IF i > Len(b[2]) THEN FALSE ELSE IF i > Len(a[2]) THEN TRUE ELSE IF a[2][i] < b[2][i] THEN TRUE ELSE IF a[2][i] > b[2][i] THEN FALSE ELSE Lt(i + 1)
+       IN Lt(1)
+  ELSE IF a[2] /\ ~b[2] THEN TRUE ELSE IF ~a[2] /\ b[2] THEN FALSE
+  ELSE IF a[2] THEN CmpMag(a[3], b[3]) > 0 ELSE CmpMag(a[3], b[3]) < 0
+RECURSIVE InsertPair(_, _, _), SortFrom(_, _, _)
+InsertPair(sorted, p, i) == IF i > Len(sorted) THEN Append(sorted, p)
+                            ELSE IF KeyLess(p[1], sorted[i][1]) THEN SubSeq(sorted, 1, i - 1) \o <<p>> \o SubSeq(sorted, i, Len(sorted))
+                            ELSE InsertPair(sorted, p, i + 1)
+SortFrom(ps, i, acc) == IF i > Len(ps) THEN acc ELSE SortFrom(ps, i + 1, InsertPair(acc, ps[i], 1))
+SortPairs(ps) == SortFrom(ps, 1, <<>>)
+
+\* entries of a map into std::map<K, V>: the key must convert to K, the value loads as a leaf
+LoadMapPairs(pairs, KT, VT, pol, i, acc) ==
+  IF i > Len(pairs) THEN <<"val", acc>>
+  ELSE LET key == pairs[i][1]
+           keyOk == (KT = "str" /\ key[1] = "str") \/ (KT = "i32" /\ key[1] = "int" /\ IntFits(key[2], key[3], "i32")) IN
+       IF ~keyOk THEN <<"any">>
+       ELSE LET r == LoadLeaf(pairs[i][2], VT, pol) IN
+            IF r[1] = "err" \/ r[1] = "any" THEN r
+            ELSE LoadMapPairs(pairs, KT, VT, pol, i + 1, Append(acc, <<key, IF r[1] = "val" THEN r[2] ELSE Fresh(VT)>>))
 
 \* elements of an array into a sequence container of element type E (fresh target):
 \* a skipped element keeps its (value-initialised) content and its position
@@ -170,9 +195,14 @@ LoadLeafXml(v, T, pol) ==
        ELSE IF k = "bool" THEN Mismatch(pol)
        ELSE Mismatch(pol)
 
+\* named deviation Dev_JsonBigIntegerIsDouble: an integer literal below -2^63 is read as a floating point number by the JSON parser
+JsonBigNeg(v) == v[1] = "int" /\ v[2] /\ CmpMag(v[3], <<128, 0, 0, 0, 0, 0, 0, 0>>) > 0
+
 LoadLeaf(v, T, pol) ==
   LET k == v[1] IN
   IF pol.arch = "xml" THEN LoadLeafXml(v, T, pol)
+  ELSE IF pol.arch = "json" /\ pol.dev = "jsonbig" /\ JsonBigNeg(v) /\ T \in (IntTypes \cup {"bool", "f32", "f64"}) THEN
+       (IF T \in {"f32", "f64"} THEN <<"any">> ELSE Mismatch(pol))
   ELSE IF T = "null" THEN (IF k = "nil" THEN <<"val", <<"nil">>>> ELSE Mismatch(pol))
   ELSE IF k = "nil" THEN                                    \* null is "not loaded" for every other target ...
        (IF pol.arch \notin {"msgpack", "json"} /\ pol.mm = "throw" /\ T \notin (IntTypes \cup {"bool", "f32", "f64"})
@@ -216,6 +246,13 @@ LoadLeaf(v, T, pol) ==
        ELSE Mismatch(pol)
   ELSE IF T = "vec_vec_u8" THEN
        IF k = "arr" THEN (LET r == LoadElems(v[2], "vec_u8", pol, 1, <<>>) IN IF r[1] = "val" THEN <<"val", <<"arr", r[2]>>>> ELSE r)
+       ELSE Mismatch(pol)
+  ELSE IF T \in {"map_str_i32", "map_i32_str"} THEN      \* std::map: entries come back ordered by key
+       IF k = "map" THEN
+            LET KT == IF T = "map_str_i32" THEN "str" ELSE "i32"
+                VT == IF T = "map_str_i32" THEN "i32" ELSE "str"
+                r == LoadMapPairs(v[2], KT, VT, pol, 1, <<>>) IN
+            IF r[1] = "val" THEN <<"val", <<"map", SortPairs(r[2])>>>> ELSE r
        ELSE Mismatch(pol)
   ELSE IF T = "vec_u8" THEN           \* byte container: bin, or (compatible rendering) an array of small integers
        IF k = "bin" THEN <<"val", v>>
